@@ -244,7 +244,7 @@ func c05Paren(p *Prog, r *Report) {
 					classes["atomic"] = true
 					return
 				}
-				if n == "("+coqPkg+".buffer).Build" {
+				if n == "("+coqPkg+".buffer).Build" || n == "(*"+coqPkg+".buffer).Build" {
 					// text assembled in a buffer: closed iff the first piece opens and the last piece closes
 					first, last := bufferEnds(p, f)
 					if closedPair(first, last) {
@@ -374,10 +374,19 @@ func bufferEnds(p *Prog, f *ssa.Function) (string, string) {
 			n := calleeName(c)
 			if n == "(*"+coqPkg+".buffer).Add" || n == "(*"+coqPkg+".buffer).AddLine" || n == "(*"+coqPkg+".buffer).Block" || n == "(*"+coqPkg+".buffer).AddComment" || n == "("+coqPkg+".Binding).AddTo" {
 				adds = append(adds, c)
-			} else if cal := calleeOf(&c.Call); cal != nil && cal.Pkg != nil && cal.Pkg.Pkg.Path() == coqPkg && len(c.Call.Args) > 0 {
-				// helper that writes into the same buffer (e.g. flowBranch(&pp, prefix, e, suffix))
-				if strings.HasSuffix(types.TypeString(c.Call.Args[0].Type(), nil), "coq.buffer") && cal.Signature.Recv() == nil {
-					adds = append(adds, c)
+			} else if cal := calleeOf(&c.Call); cal != nil && cal.Pkg != nil && cal.Pkg.Pkg.Path() == coqPkg && len(c.Call.Args) > 1 {
+				// helper or further method that writes into the same buffer (flowBranch(&pp, prefix, e, suffix),
+				// pp.addBranch(prefix, e, suffix), …): anything that receives the buffer and some text
+				if strings.HasSuffix(types.TypeString(c.Call.Args[0].Type(), nil), "coq.buffer") {
+					hasText := false
+					for _, a := range c.Call.Args[1:] {
+						if _, ok := constString(a); ok {
+							hasText = true
+						}
+					}
+					if hasText {
+						adds = append(adds, c)
+					}
 				}
 			}
 		}
@@ -405,7 +414,7 @@ func bufferEnds(p *Prog, f *ssa.Function) (string, string) {
 	}
 	// for a helper call the last constant argument is what ends the text
 	lastText := func(c *ssa.Call) string {
-		if cal := calleeOf(&c.Call); cal != nil && cal.Signature.Recv() == nil {
+		if cal := calleeOf(&c.Call); cal != nil && !knownBufferAdd(calleeName(c)) {
 			for i := len(c.Call.Args) - 1; i >= 1; i-- {
 				if cs, ok := constString(c.Call.Args[i]); ok {
 					return cs
@@ -913,4 +922,8 @@ func c05Vernacular(p *Prog, r *Report) {
 		}
 	}
 	r.OK("R05f", "types that are both declaration and term emitters enumerated", token.NoPos, fmt.Sprintf("%v: none of them is converted to coq.Expr by the translator (above)", both))
+}
+
+func knownBufferAdd(n string) bool {
+	return n == "(*"+coqPkg+".buffer).Add" || n == "(*"+coqPkg+".buffer).AddLine" || n == "(*"+coqPkg+".buffer).Block" || n == "(*"+coqPkg+".buffer).AddComment" || n == "("+coqPkg+".Binding).AddTo"
 }
